@@ -680,7 +680,7 @@ def main():
     for lang in ("c", "fortran"):
         specs.append(("harness.C15", "make_inst", dict(lang=lang)))
         labels.append("class template instantiations, wrap_%s on the class / each instantiation" % lang)
-    libs = ["geom", "clib", "strs"] if tier == "quick" else ["geom", "clib", "strs", "nest", "plain"]
+    libs = ["geom", "clib", "strs", "nsf"] if tier == "quick" else ["geom", "clib", "strs", "nsf", "nest", "plain"]
     cfs = [(True, True), (True, False), (False, False)]
     for lib in libs:
         nd = len(decl_nodes(pipeline.load_yaml(cc.LIBS[lib])))
